@@ -1016,6 +1016,10 @@ class Evaluator:
                     return self.apply(args[1], [r[1]]) if r[0] == "ok" else r
                 if short in ("or_else",):
                     return self.apply(args[1], [r[1]]) if r[0] == "err" else r
+                if short in ("unwrap", "expect"):
+                    if r[0] == "ok":
+                        return r[1]
+                    raise Unrecognised(f"Result::{short} on an Err: would panic")
         if short in ("into_iter", "iter") and len(args) == 1 and args[0][0] == "array":
             return args[0]                  # an array iterated in order is the sequence of its elements
         if short == "fold" and len(args) == 3 and args[0][0] == "array":
